@@ -18,7 +18,10 @@
      node <c> <n1> <n2> ..   the same for the ordinary child X of the last linked-to node ("/D/L<n1>/../X"): for the ADF
                              bookkeeping this is the same traversal, for HDF5 the identifier returned lives in the last file
      close <c>               cgio_close_file(c)                               -> "close <status>"
+     data <c> <type> <n> <all|block|strided>   node /T_<type> (C1 B1 I4 U4 I8 U8 R4 R8 X4 X8): set dimensions, write, read back
      cycle <k>               (oracle runs) marks the end of one repetition of the session: prints heap / fds / h5
+                             (h5 counts file-less identifiers too: see c17_common.c)
+   a link "a>b!" / a walk step "b!" is the link node X<b> whose stored path /Nope does not exist in F<b> (dangling path)
 */
 #include "c17_common.c"
 #include "cgns_io.c"
@@ -53,10 +56,11 @@ static void make_world(char *kinds, char *links)
             cgio_create_node(c, did, "X", &lid) || cgio_set_label(c, lid, "Data_t")) { printf("worldfail node %d\n", i); exit(3); }
         strncpy(ln, links, sizeof ln - 1); ln[sizeof ln - 1] = 0;
         for (e = strtok_r(ln, ",", &s2); e; e = strtok_r(NULL, ",", &s2)) {
-            int a, b; char nm[40], fn[40];
+            int a, b, dang; char nm[40], fn[40];
             if (sscanf(e, "%d>%d", &a, &b) != 2 || a != i) continue;
-            sprintf(nm, "L%d", b); sprintf(fn, "F%d.cgio", b);
-            if (cgio_create_link(c, did, nm, fn, "/D", &lid)) { printf("worldfail link %d>%d\n", a, b); exit(3); }
+            dang = e[strlen(e) - 1] == '!';                 /* a>b! : the file F<b> may exist, the stored path never does */
+            sprintf(nm, "%c%d", dang ? 'X' : 'L', b); sprintf(fn, "F%d.cgio", b);
+            if (cgio_create_link(c, did, nm, fn, dang ? "/Nope" : "/D", &lid)) { printf("worldfail link %d>%d\n", a, b); exit(3); }
         }
         if (cgio_close_file(c)) { printf("worldfail close %d\n", i); exit(3); }
     }
@@ -128,13 +132,36 @@ int main(int argc, char **argv)
             char path[4096] = "/D", *s, *t; int st; double root = 0, id = 0; char label[CGIO_MAX_LABEL_LENGTH + 1];
             int leaf = line[0] == 'n';
             t = strtok_r(line + 5, " ", &s); c = t ? atoi(t) : 0;
-            for (t = strtok_r(NULL, " ", &s); t; t = strtok_r(NULL, " ", &s)) { strcat(path, "/L"); strcat(path, t); }
+            for (t = strtok_r(NULL, " ", &s); t; t = strtok_r(NULL, " ", &s)) {
+                size_t tl = strlen(t);
+                if (tl && t[tl - 1] == '!') { strcat(path, "/X"); strncat(path, t, tl - 1); }      /* the dangling-path link to that file */
+                else { strcat(path, "/L"); strcat(path, t); }
+            }
             if (leaf) strcat(path, "/X");
             st = cgio_get_root_id(c, &root);
             if (!st) st = cgio_get_node_id(c, root, path, &id);
             if (!st) st = cgio_get_label(c, id, label);
             if (!st && strcmp(label, "Data_t")) { printf("walk wronglabel[%s]", label); dump_state(); continue; }
             printf("walk %s", st ? "err" : "ok"); dump_state();
+        } else if (sscanf(line, "data %d %7s %d %15s", &c, a, &n, b) == 4) {
+            /* data <c> <type> <n> <all|block|strided>: node /T_<type> of the file behind handle c: (create,) set dimensions,
+               write and read back in the given manner.  No effect on any handle table; exercises every data type of the back ends */
+            double root = 0, id = 0; char path[40]; cgsize_t dim = n, one = 1, half = n / 2 ? n / 2 : 1, two = 2, last, mcount; int st;
+            static double buf[4096];
+            memset(buf, 0x11, sizeof buf);
+            if (n > 200) n = 200;
+            dim = n; last = n; mcount = (n + 1) / 2;
+            sprintf(path, "T_%s", a);
+            st = cgio_get_root_id(c, &root);
+            if (!st && cgio_get_node_id(c, root, path, &id)) st = cgio_create_node(c, root, path, &id);
+            if (!st) st = cgio_set_dimensions(c, id, a, 1, &dim);
+            if (!st && !strcmp(b, "all")) { st = cgio_write_all_data(c, id, buf); if (!st) st = cgio_read_all_data_type(c, id, a, buf); }
+            else if (!st && !strcmp(b, "block")) { st = cgio_write_block_data(c, id, one, half, buf); if (!st) st = cgio_read_block_data_type(c, id, one, half, a, buf); }
+            else if (!st) {
+                st = cgio_write_data(c, id, &one, &last, &two, 1, &mcount, &one, &mcount, &one, buf);
+                if (!st) st = cgio_read_data_type(c, id, &one, &last, &two, a, 1, &mcount, &one, &mcount, &one, buf);
+            }
+            printf("data %s", st ? "err" : "ok"); dump_state();
         } else if (sscanf(line, "close %d", &c) == 1) {
             int st = cgio_close_file(c);
             printf("close %d", st); dump_state();
